@@ -121,13 +121,22 @@ def headn (r : Range) (limit : Nat) : Range :=
     | none => (1, 0)
     | some adjustedStart => (max r.1 adjustedStart, r.2)
 
-/-- keep at most `limit` elements, the lowest ones -/
-def tailn (r : Range) (limit : Nat) : Range :=
+/-- `tailn` as it was before the repair `fix: BlockRange::tailn loses the highest height …`
+    (`start.saturating_add(limit).checked_sub(1)`): kept for the record of the defect -/
+def tailnPreFix (r : Range) (limit : Nat) : Range :=
   if isEmpty r then (1, 0)
   else
     match checkedSub (satAdd r.1 limit) 1 with
     | none => (1, 0)
     | some adjustedEnd => (r.1, min r.2 adjustedEnd)
+
+/-- keep at most `limit` elements, the lowest ones -/
+def tailn (r : Range) (limit : Nat) : Range :=
+  if isEmpty r then (1, 0)
+  else
+    match checkedSub limit 1 with
+    | none => (1, 0)
+    | some limitMinusOne => (r.1, min r.2 (satAdd r.1 limitMinusOne))
 
 end Range
 
@@ -136,7 +145,7 @@ end Range
 /-- `BlockRanges::new` -/
 def new : Ranges := []
 
-/-- loop of `from_vec` (`prev` = previously visited range) -/
+/-- validation loop of the pre-repair `from_vec` (`prev` = previously visited range) -/
 def fromVecGo : Option Range → List Range → Res Unit
   | _, [] => .ok ()
   | prev, r :: rest => do
@@ -147,9 +156,27 @@ def fromVecGo : Option Range → List Range → Res Unit
     if unsorted then throw .unsorted
     fromVecGo (some r) rest
 
-def fromVec (v : List Range) : Res Ranges := do
+/-- `from_vec` as it was before the repair `fix: BlockRanges::from_vec merges adjacent ranges`
+    (validation only, the vector kept as is): kept for the record of the defect -/
+def fromVecPreFix (v : List Range) : Res Ranges := do
   fromVecGo none v
   pure v
+
+/-- loop of `from_vec`; `acc` = the `merged` vector, reversed (its head is `merged.last_mut()`) -/
+def fromVecMerge : List Range → List Range → Res Ranges
+  | acc, [] => .ok acc.reverse
+  | acc, r :: rest => do
+    Range.validate r
+    match acc with
+    | prev :: accTail =>
+      if r.1 ≤ prev.2 then throw .unsorted
+      else do
+        let e ← addU64 prev.2 1
+        if e == r.1 then fromVecMerge ((prev.1, r.2) :: accTail) rest
+        else fromVecMerge (r :: acc) rest
+    | [] => fromVecMerge [r] rest
+
+def fromVec (v : List Range) : Res Ranges := fromVecMerge [] v
 
 def contains (rs : Ranges) (height : Nat) : Bool := rs.any (fun r => Range.contains r height)
 
